@@ -918,25 +918,56 @@ func c17Caps(r *core.Run) {
 			if _, isInts := ms.Type().Underlying().(*types.Slice); !isInts || !strings.Contains(ms.Type().String(), "int") {
 				return
 			}
-			clamped := func(v ssa.Value) bool {
+			var clamped func(v ssa.Value, d int) bool
+			clamped = func(v ssa.Value, d int) bool {
+				if d > 4 {
+					return false
+				}
 				if b, ok := v.(*ssa.BinOp); ok && b.Op == token.ADD {
 					v = b.X
 				}
-				ph, ok := v.(*ssa.Phi)
-				if !ok {
-					_, isC := core.ConstInt(v)
-					return isC
-				}
-				hasConst := false
-				for _, e := range ph.Edges {
-					if _, isC := core.ConstInt(e); isC {
-						hasConst = true
+				switch x := v.(type) {
+				case *ssa.Const:
+					return true
+				case *ssa.Call:
+					// min(n, K)
+					if bi, ok := x.Call.Value.(*ssa.Builtin); ok && bi.Name() == "min" {
+						for _, a := range x.Call.Args {
+							if _, isC := core.ConstInt(a); isC {
+								return true
+							}
+						}
 					}
+					return false
+				case *ssa.Parameter:
+					// a helper that is handed the dimension: every caller passes a clamped value
+					callers := 0
+					for _, cf := range p.FuncsIn("pkg/diff") {
+						for _, ci := range core.Calls(cf, func(_ string, c *ssa.CallCommon) bool { return core.StaticCallee(c) == x.Parent() }) {
+							for i, pa := range x.Parent().Params {
+								if pa == x && i < len(ci.Common().Args) {
+									callers++
+									if !clamped(ci.Common().Args[i], d+1) {
+										return false
+									}
+								}
+							}
+						}
+					}
+					return callers > 0
+				case *ssa.Phi:
+					hasConst := false
+					for _, e := range x.Edges {
+						if _, isC := core.ConstInt(e); isC {
+							hasConst = true
+						}
+					}
+					return hasConst
 				}
-				return hasConst
+				return false
 			}
 			nL++
-			r.Check(clamped(ms.Len), "C17.CAPS", core.FuncName(fn)+"#lcs-window", ms.Pos(), "dynamic-programming table dimension is clamped to a constant window", "dynamic-programming table dimension "+core.Canon(ms.Len)+" is not clamped: quadratic memory in the entry block size")
+			r.Check(clamped(ms.Len, 0), "C17.CAPS", core.FuncName(fn)+"#lcs-window", ms.Pos(), "dynamic-programming table dimension is clamped to a constant window", "dynamic-programming table dimension "+core.Canon(ms.Len)+" is not clamped: quadratic memory in the entry block size")
 		})
 	}
 	r.Floor("C17.CAPS", "dynamic-programming tables in the zipper", nL, 2)
